@@ -186,6 +186,29 @@ pub(crate) mod proofs {
 
     // @props C19
     #[kani::proof] #[kani::unwind(2)]
+    fn inc_average_step_is_the_incremental_mean_at_large_counts() {
+        // the same step where the count no longer fits f32's 24-bit mantissa ("counts below the documented u32::MAX reset"): the weight of
+        // the new measurement must still be 1/(n+1) -- compared with the closed form evaluated in f64, relative tolerance 1e-3.
+        // Counts / values range over small sets (symbolic f32 division: see inc_counts_exactly_one_from_any_count)
+        let ns = [(1u32 << 24) - 1, 1 << 24, (1 << 24) + 3, 1 << 30, u32::MAX - 1];
+        let avgs = [0.0f32, 1.0];
+        let xs = [-1.0f32, 0.0, 3.0e6, 1073741824.0];
+        let k: usize = kani::any(); let i: usize = kani::any(); let j: usize = kani::any();
+        kani::assume(k < 5 && i < 2 && j < 4);
+        let (n, avg, x) = (ns[k], avgs[i], xs[j]);
+        let m = with_word(AtomicIncrementalAverage64::join_split(n, avg));
+        m.inc(x);
+        let (c2, a2) = m.probe();
+        let mean = (n as f64 * avg as f64 + x as f64) / (n as f64 + 1.0);
+        let tolerance = if mean.abs() > 1.0 { mean.abs() * 1.0e-3 } else { 1.0e-3 };
+        assert!(c2 == n + 1,                                                 "count + 1");
+        assert!((a2 as f64 - mean).abs() <= tolerance,                       "large counts: average' equals (n*average + x)/(n+1) within 1e-3 (relative)");
+        kani::cover!(k == 3 && j == 3, "count 2^30, measurement 2^30");
+        kani::cover!(true, "end of harness reachable (vacuity guard)");
+    }
+
+    // @props C19
+    #[kani::proof] #[kani::unwind(2)]
     fn mean_of_two_and_three_is_exact_on_small_integers() {
         // sanity anchor for the "arithmetic mean" reading on inputs where f32 is exact: two / four equal-weight integer measurements
         let m = AtomicIncrementalAverage64::new();
